@@ -64,6 +64,9 @@ def scenario(kind, ending, idx, fault, k, init_state=None, stateful=False, m=0, 
                 rec["marks_at_landing"] = list(T.MARKS)
             elif fault == 3:
                 rec["early_wait"] = w.wait(timeout=1)
+                if not rec["early_wait"]:
+                    # a polling caller: what one wait() learnt must not make the next one claim completion too early
+                    rec["early_wait"] = w.wait(timeout=0.2)
                 rec["landed"] = L.landed
                 rec["label"] = L.label
                 rec["obs_early"], rec["obs_early_err"] = wsim.observe(w)
